@@ -6,19 +6,19 @@ HERE = os.path.dirname(os.path.dirname(os.path.abspath(__file__)))
 # id -> (technique, level text, level note, design ref)
 CHECKS = {
  "C01": ("lock-step shadow monitor: real simulator vs reference ICWS'94 step (EMI94 transliteration) after every cycle, plus internal-invariant hook",
-         "Runtime monitoring. Every one of the 7616 instruction forms is executed at the PC many times under independent random read/write limits and boundary-biased fields; after every step the monitor compares the whole core and the whole process queue with an independently written reference interpreter. Holds only for the executions produced (counts in the evidence file).",
+         "Runtime monitoring. A boundary grid (every one of the 7616 forms x A,B in {0,1,2,M-1} x six limit classes) is walked completely, cores above 2^16 and pointer sums aimed at the discontinuities of Fold are covered by dedicated strata, and every form is executed at the PC many more times under independent random read/write limits and boundary-biased fields, also on simulators that were Reset before and next to bystander simulators; after every step the monitor compares the whole core and the whole process queue with an independently written reference interpreter. Holds only for the executions produced (counts in the evidence file).",
          "Trusted: the reference interpreter in ref/mars (written from the ICWS'94 draft), the Go toolchain. M capped at 2^20.", "3/C01"),
  "C02": ("lock-step shadow of whole battles through a Reporter (executed PCs) plus API snapshots after every cycle; relational monitor Run() vs RunCycle loop on two real simulators",
-         "Runtime monitoring of whole battles (1-4 hostile warriors on tiny cores so that they collide, die, hit the process and cycle limits) against a reference scheduler after every cycle, and of Run() against cycle-by-cycle driving. Decides the property on the battles produced; evidence counts the scheduling events actually seen (multi-warrior deaths, mid-cycle decisions, dropped pushes, cycle-limit ties).",
+         "Runtime monitoring of whole battles (1-4 hostile warriors on tiny cores so that they collide, die, hit the process and cycle limits; long battles of the repository's warriors on a core of 8000 reaching 8000 processes; cycle limits up to 2^64-1) against a reference scheduler after every cycle, and of Run() against cycle-by-cycle driving. Decides the property on the battles produced; evidence counts the scheduling events actually seen (multi-warrior deaths, mid-cycle decisions, dropped pushes, cycle-limit ties).",
          "Trusted: reference scheduler ref/mars/battle.go. Assumption recorded: the cycle in which a multi-warrior battle is decided is not counted.", "3/C02"),
  "C04": ("invariant monitor (API-level predicates + internal-state hook VerifInvariants) evaluated after every cycle of battles of random instruction values; configuration fuzz of NewSimulator",
          "Runtime monitoring: every configuration field is fuzzed over 0..2^20; creation must fail xor succeed without panic, and every accepted configuration (including limits larger than the core, which Validate lets through) is used for a battle of uniformly random code whose invariants are asserted after each cycle, both through the API and through a hook that walks the ring buffers and counters.",
          "Trusted: the hook file verif_hooks.go (read-only). Large cores (>4096) are scanned fully only at the start and end of a battle.", "3/C04"),
  "C11": ("locality monitor on before/after diffs + non-interference twin executions (two real simulators whose cores differ only outside the limit window) + limit-free reference step for R=W=M",
-         "Runtime monitoring that makes reads observable without a hook: besides checking that every changed cell and every non-sequential successor lies within the configured distance, each step is re-executed on a twin core that differs only beyond the limits; any difference in result proves a cell beyond the limits was used. R=W=M steps are compared with a reference that has folding removed.",
+         "Runtime monitoring that makes reads observable without a hook: besides checking that every changed cell and every non-sequential successor lies within the configured distance, each step is re-executed on a twin core that differs only beyond the limits (every such cell on big cores); any difference in result proves a cell beyond the limits was used. R=W=M steps are compared with a reference that has folding removed.",
          "Window of the twin is max(R/2,W/2) because the draft legitimately reads through the write-folded pointer. Trusted: ref/mars step for clause (c) only; clauses (a),(b) use real executions only.", "3/C11"),
  "C12": ("relational (metamorphic) monitor over pairs/triples of real simulators: run(shift k) vs rotate_k(run(shift 0)), offsets k, k+M, k+2M",
-         "Runtime monitoring with no reference model: the same battle is run at shifted placements (including wrapping code, wrapping entry points and offsets >= M) and survivors, cycle count, rotated queues and rotated core must coincide.",
+         "Runtime monitoring with no reference model: the same battle is run at shifted placements (including wrapping code, wrapping entry points, offsets >= M and offsets just below 2^63 and 2^64) and survivors, cycle count, rotated queues and rotated core must coincide.",
          "Only real executions are compared; nothing else is trusted beyond the Go toolchain.", "3/C12"),
  "C13": ("lock-step API state-machine monitor: every call's return value and the complete observable state compared with a reference model after every call; all call sequences to depth 3/4 walked as a workload plus random histories; CPU-time progress monitor around Run(); relational reset-vs-fresh check",
          "Runtime monitoring of call histories: exhaustive walk of the call alphabet to a small depth (as a workload) and tens of thousands of random histories biased toward calls that cannot apply; a panic, a hang (decided by CPU time consumed, not wall clock) or any observable difference from the reference state machine is a violation. A reset-and-respawned simulator is compared call by call with a fresh one.",
@@ -54,7 +54,7 @@ CHECKS = {
          "Runtime monitoring of the -A listing: every legal form, fields at the sign threshold, every entry point, three simulator modes; the listing read back with the pMARS conventions must denote exactly the warrior.",
          "Trusted: ref/asm ReadListing (START label, ORG START / END START, signed fields, '88 without modifiers).", "3/C16"),
  "C17": ("process monitor around the freshly built cmd/gmars: stdout/stderr/exit status parsed and compared with tallies of the reference MARS on by-construction warriors; preset table written from the README",
-         "Runtime monitoring of the command-line tool over flag vectors (-s -p -c -l -8 -preset -F -r), generated and hand-made warriors with known fates; fixed placement: exact tallies from the reference MARS; random placement: conservation of rounds and agreement of tie counts.",
+         "Runtime monitoring of the command-line tool over flag vectors (-s -p -c -l -8 -preset -F -r), generated and hand-made warriors with known fates; fixed placement: exact tallies from the reference MARS; random placement: conservation of rounds, agreement of tie counts and, on small cores, only outcomes that some placement the tool may draw produces (all placements enumerated by the reference).",
          "Trusted: ref/mars battle + ref/asm meaning; options are read as: limits = core size, distance = length, presets as in the README table.", "3/C17"),
 }
 NOT_YET = {}
